@@ -111,6 +111,13 @@ EXPORT errno_t _getenv_s_chk(size_t *restrict len, char *restrict dest,
             BND_CHK_PTR_BOUNDS(dest, dmax);
         } else {
             if (unlikely(dmax > destbos)) {
+                if (dmax <= RSIZE_MAX_STR) {
+                    if (len)
+                        *len = 0;
+                    invoke_safe_str_constraint_handler(
+                        "getenv_s: dmax exceeds dest", (void *)dest, EOVERFLOW);
+                    return RCNEGATE(EOVERFLOW);
+                }
             err_dmax:
                 if (len)
                     *len = 0;
